@@ -283,6 +283,11 @@ def gen(tier):
         {'label': 'order never ready', 'cfg': {'order_ready': 'pending'}, 'want': MAX_POLLS},
         {'label': 'order stays processing', 'cfg': {'order_final': 'processing'}, 'want': MAX_POLLS},
         {'label': 'order becomes invalid after finalize', 'cfg': {'order_final': 'invalid'}, 'want': MAX_POLLS},
+        # objects whose status moves without ever reaching the awaited one: the budget is for the object, not per status
+        {'label': 'authorization pending twice, then invalid', 'cfg': {'authz_final': 'invalid', 'authz_pending_polls': 2}, 'want': MAX_POLLS},
+        {'label': 'authorization pending 7 times, then invalid', 'cfg': {'authz_final': 'invalid', 'authz_pending_polls': 7}, 'want': MAX_POLLS},
+        {'label': 'order processing three times, then invalid', 'cfg': {'order_final': 'invalid', 'order_valid_polls': 3}, 'want': MAX_POLLS},
+        {'label': 'order processing 10 times, then invalid', 'cfg': {'order_final': 'invalid', 'order_valid_polls': 10}, 'want': MAX_POLLS},
     ]
     for i, f in enumerate(forever):
         f['i'] = i
